@@ -15,6 +15,7 @@ import (
 	"time"
 
 	"k8s.io/client-go/kubernetes/fake"
+	corev1 "k8s.io/api/core/v1"
 	metav1 "k8s.io/apimachinery/pkg/apis/meta/v1"
 	"sigs.k8s.io/yaml"
 
@@ -146,6 +147,20 @@ type TEv struct {
 	St    string    `json:"st,omitempty"`
 	Call  string    `json:"call,omitempty"` // create update delete wait hookwatch
 	Muts  []sim.Mut `json:"muts,omitempty"`
+	// hookwatch only (not part of the Coq trace): Kind/name of the watched hook resource, and whether the stub
+	// waiter reported a failure
+	Hook   string `json:"hook,omitempty"`
+	Failed bool   `json:"failed,omitempty"`
+}
+
+// LogCall: one call of kube.InterfaceLogs made by outputLogsByPolicy (C12).  At = number of trace events recorded
+// before the call.  GetPodList carries the selectors; Output = OutputContainerLogsForPodList.
+type LogCall struct {
+	At     int    `json:"at"`
+	NS     string `json:"ns"`
+	Label  string `json:"label,omitempty"`
+	Field  string `json:"field,omitempty"`
+	Output bool   `json:"output,omitempty"`
 }
 
 type StepObs struct {
@@ -160,6 +175,7 @@ type StepObs struct {
 	Reqs     int                          `json:"requests"`
 	SWrites  int                          `json:"storage_writes"` // raw count of driver Create/Update/Delete calls
 	Kept     string                       `json:"kept,omitempty"`
+	LogCalls []LogCall                    `json:"log_calls,omitempty"` // hook log fetches (C12)
 	Panic    string                       `json:"panic,omitempty"`
 }
 
@@ -270,6 +286,7 @@ type plan struct {
 	srv     *sim.Server
 	trace   []TEv
 	rawW    int
+	logs    []LogCall
 }
 
 // mutating is called before every mutating effect; reports whether the process is dead.
@@ -462,6 +479,21 @@ func (c *hclient) DeleteWithPropagationPolicy(rs kube.ResourceList, pol metav1.D
 	c.call("delete", func() { res, errs = c.Client.DeleteWithPropagationPolicy(rs, pol) })
 	return
 }
+// GetPodList / OutputContainerLogsForPodList (kube.InterfaceLogs, used by outputLogsByPolicy only): recorded, answered
+// with an empty pod list; nothing is sent to the simulated server.
+func (c *hclient) GetPodList(namespace string, lo metav1.ListOptions) (*corev1.PodList, error) {
+	c.p.mu.Lock()
+	c.p.logs = append(c.p.logs, LogCall{At: len(c.p.trace), NS: namespace, Label: lo.LabelSelector, Field: lo.FieldSelector})
+	c.p.mu.Unlock()
+	return &corev1.PodList{}, nil
+}
+func (c *hclient) OutputContainerLogsForPodList(_ *corev1.PodList, namespace string, _ func(namespace, pod, container string) io.Writer) error {
+	c.p.mu.Lock()
+	c.p.logs = append(c.p.logs, LogCall{At: len(c.p.trace), NS: namespace, Output: true})
+	c.p.mu.Unlock()
+	return nil
+}
+
 // GetWaiter answers like kube.Client.GetWaiter: only the three known strategies have a
 // waiter (the stub stands in for all of them); anything else - in particular the zero value
 // an action forgets to set - is "unknown wait strategy".
@@ -503,9 +535,22 @@ func (w *waiter) WatchUntilReady(rs kube.ResourceList, _ time.Duration) error {
 		return errDead
 	}
 	w.logCall("hookwatch")
+	mark := func(failed bool) {
+		w.c.p.mu.Lock()
+		if n := len(w.c.p.trace); n > 0 && len(rs) > 0 {
+			kind := ""
+			if rs[0].Mapping != nil {
+				kind = rs[0].Mapping.GroupVersionKind.Kind
+			}
+			w.c.p.trace[n-1].Hook, w.c.p.trace[n-1].Failed = kind+"/"+rs[0].Name, failed
+		}
+		w.c.p.mu.Unlock()
+	}
+	mark(false)
 	if w.c.hfault != nil && len(rs) > 0 && rs[0].Name == w.c.hfault.Name {
 		if w.c.hfault.Nth == 0 {
 			w.c.hfault = nil
+			mark(true)
 			return errors.New("injected: hook failed")
 		}
 		h := *w.c.hfault
@@ -675,6 +720,7 @@ func (r *Runner) RunOp(op *Op) (so StepObs) {
 		r.Srv.SetDead(false)
 	}
 	so.Trace = p.trace
+	so.LogCalls = p.logs
 	so.Ledger = r.ledger()
 	so.Objs = r.Srv.Snapshot()
 	so.MutReqs = r.Srv.MutatingRequests() - mreq0
